@@ -337,6 +337,65 @@ def r_symmetry(ctx, rule='R-SYMMETRY'):
     ctx.floor(rule, 'functions building split nodes', n, 3)
 
 
+# --------------------------------------------------------------------------- R-RELINK
+def r_relink(ctx, rule='R-RELINK'):
+    """when the id returned by the recursion on a child differs from the stored link, the parent split is rewritten"""
+    F = ctx.F
+    n = 0
+    for f in F.lib_fns():
+        if not f.path.startswith('writer::'):
+            continue
+        aggs = pairing.split_aggregates(f)
+        rec = [c for c in f.calls() if c.callee == f.path]
+        if not aggs or not rec:
+            continue
+        # the put(s) storing a split built from the recursion results
+        puts = []
+        for c in f.calls():
+            if c.callee == 'parallel::TmpNodes::<DE>::put' and paths.agg_fields(c.arg_term(2), 'node::SplitPlaneNormal') is not None:
+                if any(paths.mentions_call(c.arg_term(2), r.bb) for r in rec):
+                    puts.append(c)
+        if not puts:
+            continue
+        goals = [b for b, k, t in paths.ret_assigns(f) if k in ('ok', 'call', 'other')]
+        for b in f.live_blocks():
+            if paths.switch_at(f, b) is None:
+                continue
+            for x in f.succ(b):
+                e = paths.edge_cond(f, b, x)
+                if not e or e[0] != 'bool':
+                    continue
+                c0 = strip(e[1])
+                differs = None
+                if c0[0] == 'call' and c0[1].endswith(('PartialEq::ne', 'PartialEq::eq')) and len(c0[2]) == 2:
+                    cc = f.call_at(c0[3])
+                    if cc is None or 'node_id::NodeId as' not in cc.resolved:
+                        continue
+                    differs = e[2] if c0[1].endswith('::ne') else (not e[2])
+                    a, bb = c0[2]
+                elif c0[0] == 'binop' and c0[1] in ('Ne', 'Eq'):
+                    differs = e[2] if c0[1] == 'Ne' else (not e[2])
+                    a, bb = c0[2], c0[3]
+                else:
+                    continue
+                ma = [r for r in rec if paths.mentions_call(a, r.bb)]
+                mb = [r for r in rec if paths.mentions_call(bb, r.bb)]
+                if bool(ma) == bool(mb) or not differs:
+                    continue
+                # only comparisons of a new child id with the old link (not size tests etc.)
+                tys = []
+                for o in (a, bb):
+                    r0 = root(o)
+                    if r0[0] in ('arg', 'var', 'phi'):
+                        tys.append(f.local_ty(r0[1]))
+                n += 1
+                good = paths.must_pass(f, x, goals, [p.bb for p in puts])
+                ctx.check(good, rule, '%s/changed-child#%d' % (f.path, n), '%s:%d' % (f.span['file'], paths.block_line(f, b)),
+                          'a changed child id always leads to the parent being rewritten',
+                          'in `%s` the parent split can be left untouched although the id of one child changed (line %d): the new child node becomes unreachable and the old link dangles' % (f.path, paths.block_line(f, b)))
+    ctx.floor(rule, 'new-vs-old child comparisons', n, 2)
+
+
 # --------------------------------------------------------------------------- R-FRESH
 def r_fresh(ctx, rule='R-FRESH'):
     """every freshly allocated tree id is written under that id and linked, on every success path"""
